@@ -3,7 +3,8 @@
 (* cold>> of two access programs.  Invariants NoRace and Progress.           *)
 EXTENDS Threads, TLC, Json
 
-CONSTANT PairMode      \* "all": every unordered pair;  "cover": every program with itself and with three others
+CONSTANT PairMode,     \* "all": every unordered pair;  "cover": every program with itself and with three others
+         HeaderAccessors \* the singleton accessors ("static const X& Name();") found in the library headers by the check script
 
 NameSeq == << "geod_wgs84", "geod_obj", "geodex_wgs84", "geodex_obj", "geodexact_true", "line_pos", "lineex_pos", "rhumb_wgs84",
               "rhumb_series", "rhumb_exact", "rhumbline_pos", "tm_utm", "tm_obj", "tmx_utm", "ps_ups", "lcc_mercator", "lcc_obj",
@@ -11,9 +12,16 @@ NameSeq == << "geod_wgs84", "geod_obj", "geodex_wgs84", "geodex_obj", "geodexact
               "elliptic_obj", "normgrav_wgs84", "harmonic_obj", "circle_obj", "geoid_ts", "utmups_fwd", "mgrs_fwd", "osgb_fwd",
               "dms_codec", "gridcodes", "azeq_obj", "gnomonic_obj", "cassini_obj", "dst_obj",
               "gravmodel_obj", "gravcircle_obj", "gravmodel_circle", "magmodel_obj", "magcircle_obj", "magmodel_circle",
-              "geod_line_make", "geodex_line_make", "rhumb_line_make", "ps_obj", "tmx_obj", "ell_obj", "normgrav_obj", "geoid_ts_bilinear" >>
+              "geod_line_make", "geodex_line_make", "rhumb_line_make", "ps_obj", "tmx_obj", "ell_obj", "normgrav_obj", "geoid_ts_bilinear",
+              "albers_aea_north", "albers_aea_south", "geoc_obj", "aux_axes_series", "aux_wgs84", "normgrav_grs80" >>
 N == Len(NameSeq)
 ASSUME {NameSeq[i] : i \in 1..N} = Names /\ N = Cardinality(Names)
+\* the access-program table is well formed, and it covers the singletons of the public API: every accessor declared in
+\* the headers is a static of the model and is first-touched by at least one program
+Steps(n) == {Prog(n)[i] : i \in 1..Len(Prog(n))}
+ASSUME \A n \in Names : \A s \in Steps(n) : IF s[1] = "s" THEN s[2] \in Statics ELSE s[1] \in {"r", "c"} /\ s[2] \in Objs
+ASSUME HeaderAccessors \subseteq Statics
+ASSUME \A x \in HeaderAccessors : \E n \in Names : <<"s", x>> \in Steps(n)
 
 Pairs == IF PairMode = "all" THEN {<<i, j>> \in (1..N) \X (1..N) : i <= j}
          ELSE {<<i, j>> \in (1..N) \X (1..N) : i <= j /\ (j - i) \in {0, 1, 7, 13}}
